@@ -8,15 +8,24 @@ SUB = {
     "(*" + P + "PID).restartChild": P + "vC07_restartChild",
 }
 MO = {"replay": "model-only"}
+OPT = ("no-rule", "stop-one-for-all", "restart-one-for-all")
+ET = [0, 1, 2, 3, 4]
+FAIL = dict(MO, fn=P + "vC07_failure", cover_optional=OPT,
+            may_be_unreachable=("no rule and no any-error rule: the child is suspended and the parent is not involved",))
 CHECK = {
     "id": "C07",
     "packages": ["./actor", "./supervisor"],
     "harness": ["actor/zz_verif_c07.go", "supervisor/zz_verif_c07.go"],
     "entries": [
         dict(MO, fn=P + "vC07_lookup"),
-        dict(MO, fn=P + "vC07_failure", cases={"siblings": [0, 1, 2], "strategy": [0, 1], "errType": [0, 1, 2, 3, 4]}),
+        # one-for-one with 0..2 siblings and one-for-all without siblings: ~10 s per job
+        dict(FAIL, cases={"siblings": [0, 1, 2], "strategy": [0], "errType": ET}),
+        dict(FAIL, cases={"siblings": [0], "strategy": [1], "errType": ET}),
+        # one-for-all with siblings: ~150 s per job -> two representatives in the quick tier, all of them in the thorough tier
+        dict(FAIL, cases={"siblings": [1], "strategy": [1], "errType": [0, 3]}, tiers=("quick",)),
+        dict(FAIL, cases={"siblings": [1, 2], "strategy": [1], "errType": ET}, tiers=("thorough",)),
     ],
-    "opts": {"unwind": 10, "birth_guard_stores": True, "equalfold_ascii": True, "feas_from_iter": 1000, "substitute": SUB, "go_inline": True, "select_precise": True},
+    "opts": {"unwind": 10, "birth_guard_stores": True, "equalfold_ascii": True, "feas_from_iter": 1000, "batch_fresh": True, "substitute": SUB, "go_inline": True, "select_precise": True},
     "stop": list(SUB.keys()),
     "timeout_ms": {"quick": 1500000, "thorough": 3000000},
     "descend_extra": ["golang.org/x/sync/errgroup"],
